@@ -15,7 +15,7 @@
    All names carry the prefix ce_ (one extracted OCaml file).  No proofs here
    (Proofs/EvalSet.v). *)
 From Coq Require Import List Ascii String ZArith NArith Bool.
-From YP Require Import Outcome PyStr PyVal Doc PathParser Searches Eval Mutate.
+From YP Require Import Outcome PyStr PyVal Doc PathParser Searches Eval Mutate Create.
 Import ListNotations.
 
 (* NodeCoords.parent (as an object identity) and NodeCoords.parentref.  A parent
@@ -131,6 +131,77 @@ Definition ce_set (mustexist : bool) (p : ppath) (d : node) (value : pyval) (fmt
           end
       end
   | s => CeRead s
+  end.
+
+(* ---- Processor.delete_nodes(path) (processor.py 690-734): the generator gathers with
+   _get_required_nodes DIRECTLY (no Unmatched error for an empty answer) and deletes
+   when it gathered something; a gather that raises deletes nothing ---- *)
+Definition ce_required_raw (p : ppath) (d : node) : gen rval :=
+  match d with
+  | NLeaf _ PNone => gnil                      (* "Refusing to delete nodes from a null document" *)
+  | _ =>
+      match p with
+      | PFail e => gerr e
+      | PPath segs => ev lit re_search nstr vstr kw_handler creator (fuel_for p) MReq segs 0 (RNode d) root_ctx
+      end
+  end.
+
+Inductive ce_step :=
+  | CsDone (d : node)
+  | CsFailed (d : node) (e : exn)       (* the call raised: the document as it is then *)
+  | CsOutside.                          (* the gather created nodes / ran out of fuel / left the adapter *)
+
+Definition ce_delete (p : ppath) (d : node) : ce_step :=
+  let g := ce_required_raw p d in
+  match snd g with
+  | Done =>
+      match ce_coords false (fst g) with
+      | None => CsOutside
+      | Some cs => match delete_nodes cs d with MDone d' => CsDone d' | Failed d' e => CsFailed d' e end
+      end
+  | Err e => CsFailed d e
+  | _ => CsOutside
+  end.
+
+(* ---- edit histories given as PATHS: every step gathers on the document the
+   previous step left (History.v takes the gathered coordinates as inputs) ---- *)
+Inductive ce_hop :=
+  | CeSet (mustexist : bool) (p : ppath) (value : pyval) (fmt : vformat) (vo : option N)
+  | CeCreate (segs : list Create.seg) (value : pyval) (fmt : vformat) (vo : option N)
+      (* set_value on a missing straight path: Create.v already takes the path *)
+  | CeDelete (p : ppath).
+
+Definition ce_run_op (op : ce_hop) (d : node) : ce_step :=
+  match op with
+  | CeSet must p v f vo =>
+      match ce_set must p d v f vo with
+      | CeDone st => CsDone (fst st)
+      | CeFailed st e => CsFailed (fst st) e
+      | CeRead (Err e) => CsFailed d e
+      | _ => CsOutside
+      end
+  | CeCreate segs v f vo =>
+      match create_set lit fl segs v f vo d with
+      | SDone st => CsDone (fst st)
+      | SFailed st e => CsFailed (fst st) e
+      end
+  | CeDelete p => ce_delete p d
+  end.
+
+Inductive ce_hfinal :=
+  | ChDone (d : node)
+  | ChFailed (d : node) (e : exn) (completed : nat)
+  | ChOutside (completed : nat).
+
+Fixpoint ce_run_ops (ops : list ce_hop) (d : node) (k : nat) : ce_hfinal :=
+  match ops with
+  | [] => ChDone d
+  | op :: r =>
+      match ce_run_op op d with
+      | CsDone d' => ce_run_ops r d' (S k)
+      | CsFailed d' e => ChFailed d' e k
+      | CsOutside => ChOutside k
+      end
   end.
 
 End Compose.
